@@ -194,6 +194,23 @@ theorem port_mods_are_changes (adj : List Link) (order : List Nat) (conns : Conn
     (∀ m ∈ mods, pv'.get (m.sw, m.port) = some m.flood) :=
   updateTree_mods adj order conns pv pv' mods h
 
+/-- SEND FAILURE (`except: _prev.clear()`, spanning_tree.py:225-227).  If the (k+1)-th `con.send` of an `_update_tree()` raises, the
+first k port_mods of the undisturbed run have been sent and `_prev` is empty afterwards; and the next `_update_tree()` that goes
+through (from the empty `_prev`) sends a port_mod for every port below `OFPP_MAX` of every connected tree switch, so whatever the
+NO_FLOOD bits `b` on the switches were, those ports end with "tree port or edge port". -/
+theorem send_failure_recovery (adj : List Link) (order : List Nat) (conns : Conns) (pv pv1 : Prev) (mods1 : List PortMod) (k : Nat)
+    (h1 : updateTree adj order conns pv = .ok (pv1, mods1)) (hk : k < mods1.length)
+    (pv2 : Prev) (mods2 : List PortMod) (t : List TEdge) (ht : calcTreeL adj order = .ok t)
+    (h2 : updateTree adj order conns [] = .ok (pv2, mods2)) (b : Prev) :
+    updateTreeF adj order conns pv (some k) = .ok ([], mods1.take k) ∧
+    ∀ sw ∈ treeKeys t, ∀ ports, conns.get sw = some ports → ∀ p ∈ ports, p < OFPP_MAX →
+      (applyMods b mods2).get (sw, p) = some (decide (p ∈ treePorts t sw) || isEdgePort adj sw p) :=
+  ⟨updateTreeF_failed adj order conns pv pv1 mods1 k h1 hk, update_from_cleared adj order conns pv2 mods2 t ht h2 b⟩
+
+/-- non-vacuity: on the triangle the 4th of the 9 sends fails -/
+example : ((updateTreeF triAdj [1, 2, 3, 4] [(1, [1, 2, 4]), (2, [1, 2, 4]), (3, [1, 2, 3])] [] (some 3)).toOption.map
+    fun r => (r.1.length, r.2.length)) = some (0, 3) := by decide
+
 /-- BITS = `_prev` (either variant).  After every history the flood state of every (switch, port) reconstructed from the messages
 alone — a ConnectionUp starts a connection on which nothing has been received, every port_mod sent is applied — equals `_prev`. -/
 theorem bits_are_prev (v : Variant) (ops : List Op) (k : Nat × Nat) :
